@@ -30,6 +30,11 @@ K = (
 # S1 and S4 only (identity hash; type-based hashable): the caches stay on.
 shims.s1_identity_hash()
 shims.s4_hashable()
+import pyxform.parsing.instance_expression  # noqa: E402,F401  (loaded before the memo model is installed)
+import pyxform.xls2json  # noqa: E402,F401
+import pyxform.builder  # noqa: E402,F401
+
+shims.s12_python_lru()
 
 
 def _form(kind: int, lab: str):
@@ -42,8 +47,12 @@ def _form(kind: int, lab: str):
         rows = [{"type": "begin group", "name": "s", "label": "S"}, q, t, {"type": "end group"}]
     elif kind == 2:
         rows = [{"type": "begin repeat", "name": "s", "label": "S"}, q, {"type": "end repeat"}, t]
-    else:
+    elif kind == 3:
         rows = [q, {"type": "begin repeat", "name": "s", "label": "S"}, t, {"type": "end repeat"}]
+    else:  # a label with two instance() expressions (boundary detection + output insertion)
+        n = {"type": "note", "name": "t", "label": "X instance('l1')/root/item[name='a']/label Y instance('l1')/root/item[name='b']/label"}
+        rows = [q, {"type": "select_one l1", "name": "s", "label": "S"}, n]
+        return {"survey": rows, "choices": [{"list_name": "l1", "name": "a", "label": "A"}, {"list_name": "l1", "name": "b", "label": "B"}], "settings": [{"form_title": lab}]}
     return {"survey": rows, "settings": [{"namespaces": "ex=http://example.org/x", "form_title": lab}], "entities": [{"dataset": "ds", "label": "a"}]}
 
 
@@ -52,8 +61,9 @@ def c14_regen(kind: int, dump_between: bool, l0: int) -> bool:
     vpre: 97 <= l0 <= 122
     vpost: _ == True
     """
+    _clear_caches()  # the memo model (S12) must not carry entries from another explored path
     wb = _form(kind, S(l0, 66))
-    wb["survey"][0 if kind == 3 else 1]["label::L1"] = "B"
+    wb["survey"][0 if kind >= 3 else 1]["label::L1"] = "B"
     survey, _w, _js = build_survey(wb)
     t1 = tree(survey.xml())
     if dump_between:
@@ -67,7 +77,7 @@ specialise(
     "C14",
     "b.regeneration",
     c14_regen,
-    {"kind": [0, 1, 2, 3]},
+    {"kind": [0, 1, 2, 3, 4]},
     timeout=400,
     kernel=K[:5],
     shims=("S1", "S3", "S4"),
@@ -79,7 +89,7 @@ specialise(
 
 def c14_history(target: int, h0: int, h1: int, l0: int) -> bool:
     """
-    vpre: 0 <= h0 <= 4 and 0 <= h1 <= 4
+    vpre: 0 <= h0 <= 5 and 0 <= h1 <= 5
     vpre: 97 <= l0 <= 122
     vpost: _ == True
     """
@@ -91,7 +101,7 @@ def c14_history(target: int, h0: int, h1: int, l0: int) -> bool:
     base = tree(s0.xml())
     _clear_caches()
     for h in (h0, h1):
-        if h < 4:
+        if h < 5:
             sh, _wh, _ = build_survey(_form(h, lab))
             sh.xml()
     s1, w1, _ = build_survey(_form(target, lab))
@@ -99,24 +109,26 @@ def c14_history(target: int, h0: int, h1: int, l0: int) -> bool:
 
 
 def _clear_caches():
-    import pyxform.parsing.expression as ex
-    import pyxform.survey as sv
-    import pyxform.utils as ut
+    # every memoised function of every loaded pyxform module (not a fixed list: a cache added
+    # later is state that earlier conversions leave behind, too)
+    import sys
 
-    for f in (sv.is_parent_a_repeat, sv.share_same_repeat_parent, ut.escape_text_for_xml, ex.parse_expression):
-        if hasattr(f, "cache_clear"):
-            f.cache_clear()
+    for name, mod in list(sys.modules.items()):
+        if name == "pyxform" or name.startswith("pyxform."):
+            for v in list(vars(mod).values()):
+                if callable(v) and hasattr(v, "cache_clear") and hasattr(v, "cache_info"):
+                    v.cache_clear()
 
 
 specialise(
     "C14",
     "c.history",
     c14_history,
-    {"target": [0, 1, 2, 3]},
+    {"target": [0, 1, 2, 3, 4]},
     timeout=500,
-    kernel=K[5:9],
+    kernel=K[5:9] + ("pyxform.parsing.instance_expression:find_boundaries", "pyxform.parsing.instance_expression:replace_with_output"),
     shims=("S1", "S3", "S4"),
-    symbolic="a history of up to 2 prior conversions drawn from the 4-form menu (2 symbolic ints; 4 = none) and a symbolic label character shared by all forms",
+    symbolic="a history of up to 2 prior conversions drawn from the 5-form menu (2 symbolic ints; 5 = none) and a symbolic label character shared by all forms",
     bounds="target form fixed per instance; lru caches on; forms share names, texts and xpaths but differ in repeat structure",
     weight=120,
 )
@@ -335,6 +347,8 @@ def _seed_form(variant: int, lab: str):
             "survey": [{"type": "select_one l1 or_other", "name": "q1", "label::L1": lab, "label::L2": "B"}],
             "choices": [{"list_name": "l1", "name": "a", "label::L1": "A", "label::L2": "A2"}],
         }
+    if variant == 4:  # pulldata() on different files in several bind columns: order of the instances
+        return {"survey": [{"type": "text", "name": "q1", "label": lab, "calculation": "pulldata('fa','a','b','c')", "constraint": "pulldata('fb','a','b','c')", "required": "pulldata('fc','a','b','c')", "relevant": "pulldata('fd','a','b','c')"}]}
     if variant == 3:  # several extra namespaces + entities: order of xmlns attributes on the root
         return {
             "survey": [{"type": "text", "name": "q1", "label": lab}],
@@ -352,6 +366,7 @@ def c14_setorder(variant: int, l0: int) -> bool:
     """
     from vf import setorder
 
+    _clear_caches()  # the memo model (S12) must not carry entries from another explored path
     lab = S(l0, 66)
     outs = []
     for active in (False, True):  # first run: insertion order; second run: solver-chosen orders
@@ -374,7 +389,7 @@ def _seed_public(args):
     return {"workbook": _seed_form(args["variant"] if "variant" in args else 0, S(args["l0"], 66))}
 
 
-for _v in (0, 1, 2, 3):
+for _v in (0, 1, 2, 3, 4):
     specialise(
         "C14",
         "a.hash-seed",
@@ -383,8 +398,8 @@ for _v in (0, 1, 2, 3):
         timeout=500,
         kernel=("pyxform.survey:Survey._add_empty_translations", "pyxform.survey:Survey._setup_translations", "pyxform.xls2json:workbook_to_json", "pyxform.validators.pyxform.translations_checks:Translations._find_missing", "pyxform.validators.pyxform.parameters_generic:validate"),
         shims=("S1", "S3", "S4", "S8"),
-        symbolic="iteration order of every set iterated by pyxform code (solver-chosen rotation/swap each time pyxform code starts iterating a set of 2-4 elements) and a symbolic label character",
-        bounds="the same workbook converted twice in one path: once with insertion order, once with solver-chosen set orders (sets of 2-4 elements); form variant fixed per instance (itext padding, or_other with translations, multi-item error/warning messages)",
+        symbolic="iteration order of every set iterated by pyxform code (solver-chosen rotation/swap each time pyxform code starts iterating a set of 2-5 elements: sets built by pyxform code and module-level set constants) and a symbolic label character",
+        bounds="the same workbook converted twice in one path: once with insertion order, once with solver-chosen set orders (sets of 2-5 elements; sets produced inside C-level operations such as dict-view arithmetic are outside the model); form variant fixed per instance (itext padding, or_other with translations, multi-item error/warning messages, namespaces, pulldata instances)",
         weight=120,
         setorder=True,
         hashseed_public=_seed_public,
